@@ -29,6 +29,10 @@ mod chanseq;
 mod c15;
 mod c08;
 mod c16;
+mod asyncx;
+mod c11;
+mod c06;
+mod c12;
 
 use registry::Tier;
 
